@@ -363,8 +363,158 @@ def h_processes(ctx):
 
 _pp = Part("across-processes", h_processes, split_depth=1)
 _pp.single_bucket_ok = True
+# ------------------------------------------------------------------ one message, several recipients: per-recipient randomness
+RCPTS = [("ECDH-ES+A128KW", "P-256", 0), ("ECDH-ES+A128KW", "P-256", 1), ("ECDH-ES+A256KW", "P-256", 0), ("ECDH-ES+A128KW", "X25519", 0),
+         ("ECDH-ES+A192KW", "X25519", 1), ("A128GCMKW", "oct16", 0), ("A128GCMKW", "oct16", 1), ("A256GCMKW", "oct32", 0),
+         ("PBES2-HS256+A128KW", "oct20", 0), ("PBES2-HS256+A128KW", "oct20", 1), ("A128KW", "oct16", 0), ("RSA-OAEP", "rsa", 0)]
+RCPTS_1PU = [("ECDH-1PU+A128KW", "P-256", 0), ("ECDH-1PU+A128KW", "P-256", 1), ("ECDH-1PU+A256KW", "P-256", 0), ("ECDH-1PU+A128KW", "X25519", 0),
+             ("ECDH-1PU+A128KW", "X25519", 1)]
+
+
+def h_recipients(ctx):
+    """General JSON with two or three recipients: the values drawn per recipient (ephemeral key, key-wrap IV, salt) are pairwise distinct
+    within the message, and every entry yields the content key (reference decryptor)."""
+    import itertools
+    from joserfc import jwe
+    scen.register_drafts()
+    fam = ctx.choose("family", ["rfc7518", "ecdh-1pu"])
+    pool = RCPTS if fam == "rfc7518" else RCPTS_1PU
+    n = ctx.choose("recipients", [2, 3])
+    combos = list(itertools.combinations_with_replacement(range(len(pool)), 2)) if n == 2 else \
+        [c for c in itertools.combinations_with_replacement(range(len(pool)), 3) if (sum(c) % 5 == 0 or config.thorough())]
+    combo = ctx.choose("mix", combos)
+    enc = ctx.choose("enc", ["A128CBC-HS256", "A256GCM"] if fam == "rfc7518" else ["A128CBC-HS256"])
+    obj = jwe.GeneralJSONEncryption({"enc": enc}, b"plaintext")
+    privs = []
+    sender = {k: scen.key(k, 5) for k in ("P-256", "X25519")}
+    skey = None
+    for j, i in enumerate(combo):
+        alg, kind, which = pool[i]
+        jwk = scen.key(kind, which)
+        privs.append((alg, jwk))
+        obj.add_recipient({"alg": alg, "kid": f"r{j}"}, A.jkey(jwk if jwk["kty"] == "oct" else rjwk.public_of(jwk), "dict"))
+    names = [pool[i][0] for i in combo]
+    if fam == "ecdh-1pu":
+        kinds = {pool[i][1] for i in combo}
+        if len(kinds) > 1:
+            return Outcome("n/a", [], nontrivial=None)      # one sender key serves one curve
+        skey = A.jkey(sender[kinds.pop()], "dict")
+    seam.install()
+    start = seam.begin_call("message")
+    try:
+        r = call(jwe.encrypt_json, obj, None, algorithms=scen.JWE_ALL, sender_key=skey)
+    finally:
+        seam.uninstall()
+    vs = []
+    what = f"{names} enc={enc}"
+    if not r.ok:
+        return Outcome("encrypt-failed", [viol("encryption for several recipients fails", f"{what}: {r.exc!r}")], nontrivial=(fam, combo, enc))
+    t = rjwe.parse(r.value)
+    seen = {"epk": [], "iv": [], "p2s": []}
+    for j, (rh, ek) in enumerate(t["recipients"]):
+        merged = {**t["protected"], **(t["unprotected"] or {}), **(rh or {})}
+        alg, jwk = privs[j]
+        if alg.startswith("ECDH"):
+            epk = merged.get("epk")
+            if not isinstance(epk, dict) or epk.get("crv") != jwk["crv"]:
+                vs.append(viol("epk is not on the recipient's curve [several recipients]", f"{what}: entry {j}: {epk!r}"))
+            else:
+                seen["epk"].append((epk.get("crv"), epk.get("x")))
+        if alg.endswith("GCMKW"):
+            iv = b64.dec(merged.get("iv", ""))
+            if len(iv) != 12:
+                vs.append(viol("AES-GCM key-wrap IV is not 96 bits [several recipients]", f"{what}: entry {j}: {iv.hex()}"))
+            seen["iv"].append(iv)
+        if alg.startswith("PBES2"):
+            seen["p2s"].append(b64.dec(merged.get("p2s", "")))
+        try:
+            pt = rjwe.decrypt(r.value, jwk, sender_jwk=rjwk.public_of(sender[jwk["crv"]]) if "1PU" in alg else None, index=j)[0]
+            if pt != b"plaintext":
+                vs.append(viol("a recipient entry of a multi-recipient message decrypts to other content", f"{what}: entry {j}"))
+        except RefError as e:
+            vs.append(viol("a recipient entry of a multi-recipient message does not yield the content key (reference decryptor)", f"{what}: entry {j}: {e!r}"))
+    label = {"epk": "ECDH ephemeral keys", "iv": "AES-GCM key-wrap IVs", "p2s": "PBES2 salt inputs"}
+    for k, vals in seen.items():
+        if len(set(vals)) != len(vals):
+            vs.append(viol(f"{label[k]} of the recipients of one message are not pairwise distinct", f"{what}: {[v.hex() if isinstance(v, bytes) else v for v in vals]}"))
+    return Outcome(f"{fam}:{n}:{'ok' if not vs else 'bad'}", vs, nontrivial=(fam, combo, enc))
+
+
+# ------------------------------------------------------------------ E3: two encryptions at the same time
+THREAD_OPS = [("A128GCMKW", "oct16", 0, "A128GCM"), ("A128GCMKW", "oct16", 1, "A128GCM"), ("PBES2-HS256+A128KW", "oct20", 0, "A128GCM"),
+              ("ECDH-ES", "P-256", 0, "A128GCM"), ("ECDH-ES+A128KW", "P-256", 0, "A128CBC-HS256"), ("A128KW", "oct16", 0, "A128CBC-HS256"),
+              ("dir", "oct16", 0, "A128GCM")]
+
+
+def h_threads(ctx):
+    from .. import conc
+    from joserfc import jwe
+    scen.register_drafts()
+
+    def op(spec):
+        alg, kind, which, enc = spec
+
+        def run(sh):
+            r = call(jwe.encrypt_compact, {"alg": alg, "enc": enc}, b"plaintext", sh[(kind, which)], algorithms=[alg, enc])
+            return (spec, r)
+        return (f"encrypt {alg} {enc} key {kind}/{which}", run)
+    menu = [op(s_) for s_ in THREAD_OPS]
+
+    def shared():
+        out = {}
+        for alg, kind, which, enc in THREAD_OPS:
+            jwk = scen.key(kind, which)
+            out[(kind, which)] = A.jkey(jwk if jwk["kty"] == "oct" else rjwk.public_of(jwk), "dict")
+        return out
+
+    def values(o):
+        (alg, kind, which, enc), r = o
+        t = rjwe.parse(r.value)
+        vals = [("content encryption IV", t["iv"])]
+        p = t["protected"]
+        if alg not in ("dir", "ECDH-ES"):
+            vals.append(("content encryption key", rjwe.cek_of(r.value, scen.key(kind, which))))
+        if "epk" in p:
+            vals.append(("epk", p["epk"]["x"].encode()))
+        if alg.endswith("GCMKW"):
+            vals.append(("AES-GCM key-wrap IV", b64.dec(p["iv"])))
+        if "p2s" in p:
+            vals.append(("PBES2 salt input", b64.dec(p["p2s"])))
+        return vals
+
+    def judge(name, o, sh):
+        (alg, kind, which, enc), r = o
+        if not r.ok:
+            return ("encryption fails while another encryption runs", f"{name}: {r.exc!r}")
+        try:
+            if rjwe.decrypt(r.value, scen.key(kind, which))[0] != b"plaintext":
+                return ("a token encrypted while another encryption runs decrypts to other content", name)
+            values(o)
+        except RefError as e:
+            return ("a token encrypted while another encryption runs announces values it was not made with (reference cannot decrypt)", f"{name}: {e!r}")
+        t = rjwe.parse(r.value)
+        if len(t["iv"]) != ENC[enc][2]:
+            return ("content encryption IV has the wrong size", name)
+        return None
+
+    def post(names, obs, sh):
+        out = []
+        try:
+            a, b = values(obs[0]), values(obs[1])
+        except Exception:  # noqa  (reported by judge)
+            return out
+        for (na, va) in a:
+            for (nb, vb) in b:
+                if na == nb and va == vb:
+                    out.append((f"two encryptions running at the same time use the same {na}", f"{va.hex()[:40]}"))
+        return out
+    return conc.pairs(ctx, menu, shared, judge, thorough=config.thorough(), post=post)
+
+
 PARTS = [
     Part("encryption-histories", custom=histories, engine="E2"),
+    Part("several-recipients-one-message", h_recipients, split_depth=3),
+    Part("thread-schedules", h_threads, bound={"quick": 1, "thorough": 2}, split_depth=2, budget={"quick": 200, "thorough": 3000}, engine="E3"),
     Part("key-generation", h_generate, split_depth=2),
     _pp,
 ]
